@@ -735,6 +735,12 @@ func (fg *FuncGen) run() {
 		fg.vals[p] = v
 		fg.typeFacts(name, p.Type())
 		fg.paramVals[p.Name()] = v
+		for o, c := range fg.g.renamesOf(fn) {
+			if c == p.Name() {
+				fg.paramVals[o] = v // the contract still uses the name the parameter had on the pinned tree
+				fg.note("parameter %s of %s was called %s when the contracts were written: bound by position", c, funcDisplayName(fn), o)
+			}
+		}
 	}
 	fg.entry = st.clone()
 
@@ -879,7 +885,16 @@ func (fg *FuncGen) walk(fn *ssa.Function, prefix string) {
 // defer-free closures are inlined; anything else is treated as an unknown call.
 func (fg *FuncGen) inlineClosure(mc *ssa.MakeClosure, args []Val, guard string) (Val, bool) {
 	fn, ok := mc.Fn.(*ssa.Function)
-	if !ok || len(fn.Blocks) == 0 || fg.inlineDepth > 2 {
+	if !ok {
+		return Val{}, false
+	}
+	return fg.inlineBody(fn, mc.Bindings, args, guard)
+}
+
+// inlineBody: see inlineClosure; also used for a module function that is new with respect to
+// the pinned tree (a helper extracted by a refactoring has no contract to be called by).
+func (fg *FuncGen) inlineBody(fn *ssa.Function, bindings []ssa.Value, args []Val, guard string) (Val, bool) {
+	if len(fn.Blocks) == 0 || fg.inlineDepth > 2 {
 		return Val{}, false
 	}
 	for _, b := range fn.Blocks {
@@ -896,7 +911,9 @@ func (fg *FuncGen) inlineClosure(mc *ssa.MakeClosure, args []Val, guard string) 
 		}
 	}
 	for i, fv := range fn.FreeVars {
-		fg.vals[fv] = fg.val(mc.Bindings[i])
+		if i < len(bindings) {
+			fg.vals[fv] = fg.val(bindings[i])
+		}
 	}
 	for i, p := range fn.Params {
 		if i < len(args) {
@@ -953,7 +970,11 @@ func (fg *FuncGen) inlineClosure(mc *ssa.MakeClosure, args []Val, guard string) 
 			rv = Val{Typ: rt, Tup: res}
 		}
 	}
-	fg.note("closure %s executed inline at its call site", fn.Name())
+	if fn.Parent() != nil {
+		fg.note("closure %s executed inline at its call site", fn.Name())
+	} else {
+		fg.note("function %s has no contract and did not exist when the baseline was written: executed inline at its call site", funcDisplayName(fn))
+	}
 	return rv, true
 }
 
